@@ -10,6 +10,7 @@ import copy
 import os
 import subprocess
 import tempfile
+import traceback
 import time
 from collections import defaultdict, deque
 
@@ -593,6 +594,9 @@ class Explorer:
             elif t[0] == 'union':
                 for i, a in enumerate(t[1]):
                     alts.append(('alt', i, show(a)))
+            elif t[0] == 'int' and p in c.opts.get('int_cases', {}):
+                # explicit concrete values of an int parameter (e.g. the precision of a bounded stand-in)
+                alts = [('int', v, str(v)) for v in c.opts['int_cases'][p]]
             else:
                 raise InterpError(f'cannot split on {p}: {tstr}')
             out = [dict(o, **{p: a}) for o in out for a in alts]
@@ -618,6 +622,10 @@ class Explorer:
                     P.param_types[p] = (t, bound[p])
                     continue
                 if cs[0] == 'bool':
+                    bound[p] = cs[1]
+                    P.param_types[p] = (t, bound[p])
+                    continue
+                if cs[0] == 'int':
                     bound[p] = cs[1]
                     P.param_types[p] = (t, bound[p])
                     continue
@@ -845,7 +853,9 @@ class Explorer:
         light = self.current is not None and (self.current.opts.get('light_axioms', False) or self.current.opts.get('light_theory', False))
         # options light_axioms / light_theory: no product-splitting instances (PP.split / S6q)
         tl = self.current is not None and self.current.opts.get('theory_light', False)   # one round, no product splitting
-        ax, _ = theory.instantiate(formulas, rounds=(1 if tl else 2), heavy=not (light or tl), quant=self.quant)
+        _o = self.current.opts if self.current is not None else {}
+        ax, _ = theory.instantiate(formulas, rounds=(1 if tl else _o.get('theory_rounds', 2)),
+                                   heavy=(not (light or tl)) and _o.get('theory_heavy', True), quant=self.quant)
         s = z3.Solver()
         s.set('timeout', timeout_ms or self.timeout_ms)
         for f in formulas:
@@ -926,6 +936,8 @@ class Explorer:
                         seqs.apply_alias(args, dst, src)
                     return {'args': args, 'ghost': ghost_values(model), 'bound': B}, 'sat'
                 except Exception as e:
+                    if os.environ.get('PYVC_DEBUG'):
+                        traceback.print_exc()
                     return None, f'concretize-error: {type(e).__name__}: {e}'
         return None, status
 
@@ -961,7 +973,11 @@ class Explorer:
             if npaths > self.max_paths:
                 unsupported.append(f'path budget {self.max_paths} exceeded')
                 break
-            P = Path(self, prefix)
+            if c.opts.get('dialect') == 'fpy':
+                from .fpydialect import FpyPath
+                P = FpyPath(self, prefix)
+            else:
+                P = Path(self, prefix)
             res = PathResult()
             try:
                 self.verify_path(P, c, info, case, res)
@@ -985,6 +1001,9 @@ class Explorer:
                 bounded_opt = c.opts.get('bounded')
                 if bounded_opt:
                     st, secs, backend, smt2 = self.discharge(ob.pc, ob.goal)
+                    if st not in ('unsat', 'bounded-unsat') and c.opts.get('dialect'):
+                        # bounded FPy stand-in: the model of the failed query is a counterexample
+                        cex, rstatus = self.refute(P, c, ob, [bounded_opt], c.opts.get('bounded_ms', 60000))
                 else:
                     # 1. proof attempt (z3)  2. quick bounded refutation  3. cvc5 / z3-retry  4. wider refutation
                     st, secs, backend, smt2 = self._discharge(ob.pc, ob.goal, fallback=False)
